@@ -817,6 +817,10 @@ func (c *SpecCtx) call(x *SCall) Val {
 		return Val{T: s.ghostRead(g, s.term(kv)), Ty: g.Ty}
 	case "lockcount":
 		return ival(s.lockCountTerm())
+	case "wt":
+		// wt(x): x satisfies the invariant of its Go type (ranges, typed location)
+		v := arg(0)
+		return bval(e.typeInv(v.Ty, s.term(v)))
 	case "errtext":
 		return e.errText(s, arg(0))
 	case "spawned":
